@@ -138,6 +138,7 @@ def run_case(c):
             kw = dict(n_iters=c["n_iters"], random_state=rec)
             if c.get("proposals") is not None:
                 kw["proposals"] = list(c["proposals"])
+                props_arg = kw["proposals"]
             if start["how"] == "cold":
                 # public cold-start path with an integer seed; the proposals it drew are recovered by
                 # chaining the real per-sweep routine from the real start state with a recording
@@ -160,7 +161,9 @@ def run_case(c):
                                           and np.array_equal(d, res.distances))
             elif start["how"] == "centers":
                 out["start_ctrs"] = list(start["ctrs"])
-                res = KM.kmedoids(X, metric, cluster_center_inds=list(start["ctrs"]), **kw)
+                ci_arg = list(start["ctrs"])
+                res = KM.kmedoids(X, metric, cluster_center_inds=ci_arg, **kw)
+                out["args_unchanged"] = (ci_arg == list(start["ctrs"]))
             elif start["how"] == "pairs":
                 lens = start["lengths"]
                 flat = [sum(lens[:t]) + f for t, f in start["pairs"]]
@@ -171,8 +174,12 @@ def run_case(c):
                 r0 = KC.kcenters(X, metric, n_clusters=start["k"])
                 out["start_ctrs"] = [int(i) for i in r0.center_indices]
                 ci = list(r0.center_indices) if start.get("give_ctrs", True) else None
-                res = KM.kmedoids(X, metric, assignments=r0.assignments.copy(), distances=r0.distances.copy(),
-                                  cluster_center_inds=ci, **kw)
+                a_arg, d_arg = r0.assignments.copy(), r0.distances.copy()
+                ci_copy = None if ci is None else list(ci)
+                res = KM.kmedoids(X, metric, assignments=a_arg, distances=d_arg, cluster_center_inds=ci, **kw)
+                out["args_unchanged"] = bool(np.array_equal(a_arg, r0.assignments) and np.array_equal(d_arg, r0.distances)
+                                             and (ci is None or [int(i) for i in ci] == [int(i) for i in ci_copy]))
+                out["result_aliases_args"] = bool(np.shares_memory(res.assignments, a_arg) or np.shares_memory(res.distances, d_arg))
             out["res"] = canon(res, X)
             out["proposals_log"] = list(rec.log)
             if c.get("extras") and start["how"] != "cold":
@@ -280,6 +287,8 @@ def inv_failures(out, tag=""):
             break
     if not out.get("X_unchanged", True):
         fails.append(("input-modified", "the data array was modified"))
+    if out.get("args_unchanged") is False:
+        fails.append(("input-modified", "caller-supplied assignments / distances / cluster_center_inds were modified"))
     return fails
 
 
@@ -326,6 +335,22 @@ def gen_kcenters(rng, nmax=12):
     c["form"] = "class" if rng.random() < 0.25 else "func"
     c["ti"] = (c["form"] == "func" and rng.random() < 0.5)
     return c
+
+
+def gen_ti_boundary(rng):
+    """1-D float data where some frame sits a hair above half the centre-to-new-centre distance:
+    the comparison `distances > cc_dists/2` of the triangle shortcut is decided by ~1e-7..1e-9."""
+    eps = rng.choice([1e-7, 1e-9, 1e-6, 3e-6, 1e-5])
+    span = rng.choice([2, 4, 6])
+    pts = [0.0, float(span)]
+    for _ in range(rng.randint(1, 4)):
+        base = span / 2 + rng.choice([0, 0, 1, -1]) * rng.choice([0, 0.5])
+        pts.append(base + rng.choice([1, -1, 2, 0]) * eps)
+    pts += [float(rng.randint(1, span * 2)) + rng.choice([0, eps]) for _ in range(rng.randint(0, 3))]
+    pts = [pts[0]] + sorted(set(pts[1:]), key=lambda v: rng.random())
+    n = len(pts)
+    return {"metric": "euclidean", "X": [[p] for p in pts], "dtype": "float64", "n": n, "kind": "kcenters",
+            "nclu": rng.randint(2, n), "cutoff": None, "init": None, "form": "func", "ti": rng.random() < 0.8}
 
 
 def gen_kmedoids(rng, nmax=11):
@@ -429,6 +454,8 @@ def common_tags(c, out):
         t.append("warm-init")
     if c.get("ti"):
         t.append("ti")
+    if c["kind"] == "kcenters" and c["metric"] == "euclidean" and any(float(v[0]) != int(v[0]) for v in c["X"] if len(v) == 1):
+        t.append("near-half-boundary")
     if c.get("form") == "class":
         t.append("estimator-form")
     if c["kind"] == "kmedoids":
